@@ -115,8 +115,13 @@ def evaluate_shard(cases, tag):
     return {r[0]: r for r in rows}, details
 
 
+def skipped(c):
+    """payload cases whose value the real validator rejected: nothing was rendered"""
+    return c["class"] == "payload" and not (c.get("payload") or {}).get("accepted")
+
+
 def evaluate(cases, tag):
-    cases = [c for c in cases if not c["obs"].get("error") and not c["obs"].get("panic")]
+    cases = [c for c in cases if not c["obs"].get("error") and not c["obs"].get("panic") and not skipped(c)]
     shards = [cases[k:k + SHARD] for k in range(0, len(cases), SHARD)]
     rows, details = {}, {}
     with concurrent.futures.ThreadPoolExecutor(max_workers=WORKERS) as ex:
@@ -241,8 +246,29 @@ def judge(run, cases, rows, details, verbose=False):
             run.failing({"kind": "panic", "class": c["class"]}, [slim(c)],
                         "the code under test panicked on case %d: %s" % (c["id"], o["panic"][:300]), theorem="harness c07")
             continue
+        if skipped(c):
+            run.count_case({"payload": c["payload"]["field"], "add": c["payload"]["add"], "plus": c["flags"]["plus"]}, False)
+            run.cov["payload_rejected_by_validator"] = run.cov.get("payload_rejected_by_validator", 0) + 1
+            continue
         row = rows[c["id"]]
         cid, agree, spec, nontrivial, tag = row
+        if c["class"] == "payload":
+            pl = c["payload"]
+            run.count_case({"payload": pl["field"], "add": pl["add"], "plus": c["flags"]["plus"]}, True)
+            run.cov["traces_validated_against_impl"] += 1
+            run.cov["payload_accepted_and_rendered"] = run.cov.get("payload_accepted_and_rendered", 0) + 1
+            run.cov.setdefault("payload_fields", set()).add(pl["field"])
+            for e in o.get("errors") or []:
+                run.failing({"kind": "payload-configurator-error", "field": pl["field"]}, [slim(c)],
+                            "the Configurator returned an error for an accepted value of %s + %r (case %d): %s" % (pl["field"], bytes(pl["add"]).decode("latin1"), c["id"], e[:200]),
+                            theorem="Configurator AddOrUpdate*")
+            if not spec:
+                _, bad, ar, du, _n = details[cid]
+                run.failing({"kind": "payload-breaks-file", "field": pl["field"]}, [slim(c)],
+                            "value accepted by the real validator breaks the generated configuration: %s + %r on %s (case %d): malformed=%s problems=%s duplicates=%s"
+                            % (pl["field"], bytes(pl["add"]).decode("latin1"), pl["target"], cid, bad, [(b, x) for _, b, x in ar][:3], du[:2]),
+                            theorem="Lex.Check.wf_conf / arity_errors")
+            continue
         if c["class"] == "paths":
             path = file_bytes(o["files"][0]).decode("latin1")
             run.count_case({"path": path}, True)
@@ -319,6 +345,8 @@ def check(run):
     cases = C.read_jsonl(out)
     rows, details = evaluate(cases, run.tier)
     judge(run, cases, rows, details)
+    if isinstance(run.cov.get("payload_fields"), set):
+        run.cov["payload_fields"] = len(run.cov["payload_fields"])
     for c in [x for x in cases if x["class"] == "set"][:2] + [x for x in cases if x["class"] == "names"][:1]:
         run.sample(slim(c))
     run.cov["rule"] = ("sets: 2-5 resources (regular Ingress, master+minions, VirtualServer with 0-2 VirtualServerRoutes, TransportServer TCP/UDP/TLS passthrough) over "
@@ -347,3 +375,5 @@ def replay(run, path):
             c["id"], c["class"], o.get("accepted"), [(f["name"], len(file_bytes(f))) for f in o.get("files") or []],
             o.get("errors"), rows.get(c["id"])))
     judge(run, cases, rows, details, verbose=True)
+    if isinstance(run.cov.get("payload_fields"), set):
+        run.cov["payload_fields"] = len(run.cov["payload_fields"])
